@@ -411,6 +411,10 @@ func ruleIDOnce(c *Ctx) {
 		c.undecided(rule, "family", token.NoPos, "expander family not found by role")
 		return
 	}
+	// decided on the effect normal form of the id-applying helper whenever that is available
+	if c.idOnceBySim(rule, fam) {
+		return
+	}
 	// the id-applying helper by role
 	var helper *ast.FuncDecl
 	var keyVar types.Object
